@@ -61,10 +61,88 @@ def apply_variant(prog: Program, v: Variant) -> Optional[Dict[str, str]]:
     return {v.file: new}
 
 
+@dataclass
+class PatchVariant:
+    """A unified diff from the committed corpora (/verif/seeded: breaking changes made by independent sub-agents;
+    /verif/refactors: behaviour-preserving refactorings), applied in memory.  expect = "*" (some new finding of this
+    property must appear) or None (the checker must stay silent)."""
+
+    name: str
+    patch: str
+    expect: Optional[str]
+
+
+def apply_patch_text(repo, diff: str) -> Optional[Dict[str, str]]:
+    """Apply a `git diff` to the files under repo, in memory.  None if a hunk does not match the current source."""
+    import re
+
+    out: Dict[str, str] = {}
+    files = re.split(r"^diff --git .*$", diff, flags=re.M)[1:]
+    for blk in files:
+        m = re.search(r"^\+\+\+ b/(.+)$", blk, flags=re.M)
+        if not m:
+            return None
+        rel = m.group(1).strip()
+        path = repo / rel
+        if not path.exists():
+            return None
+        with open(path, newline="") as fh:
+            src = fh.read().splitlines(keepends=True)
+        res: List[str] = []
+        pos = 0
+        body = blk[blk.index("@@"):] if "@@" in blk else ""
+        for hm in re.finditer(r"^@@ -(\d+)(?:,(\d+))? \+\d+(?:,\d+)? @@.*?\n((?:[ +\-\\].*\n?)*)", body, flags=re.M):
+            start = int(hm.group(1)) - 1
+            lines = hm.group(3).splitlines(keepends=True)
+            if start < pos:
+                return None
+            res += src[pos:start]
+            pos = start
+            for ln in lines:
+                if ln.startswith("\\"):
+                    continue
+                tag, txt = ln[0], ln[1:]
+                if tag in " -":
+                    if pos >= len(src) or src[pos].rstrip("\r\n") != txt.rstrip("\r\n"):
+                        return None
+                    if tag == " ":
+                        res.append(src[pos])
+                    pos += 1
+                elif tag == "+":
+                    res.append(txt if txt.endswith("\n") else txt + "\n")
+        res += src[pos:]
+        out[rel] = "".join(res)
+    return out or None
+
+
+def corpus_variants(prop: str) -> List[PatchVariant]:
+    from .report import VERIF
+
+    out: List[PatchVariant] = []
+    try:
+        fired = json.loads((VERIF / "seeded" / "results.json").read_text())
+    except Exception:
+        fired = {}
+    for sid, v in sorted(fired.items()):
+        p = VERIF / "seeded" / sid / "patch.diff"
+        if prop in v.get("fired", {}) and p.exists():
+            out.append(PatchVariant(f"seed:{sid}", p.read_text(), "*"))
+    rd = VERIF / "refactors"
+    if rd.is_dir():
+        for d in sorted(rd.iterdir()):
+            p = d / "patch.diff"
+            if d.name.startswith(prop + "-") and p.exists():
+                out.append(PatchVariant(f"refactor:{d.name}", p.read_text(), None))
+    return out
+
+
 def _run_variant(args):
     prop, v, base_keys, repo = args
     base = Program(repo)
-    ov = apply_variant(base, v)
+    if isinstance(v, PatchVariant):
+        ov = apply_patch_text(base.repo, v.patch)
+    else:
+        ov = apply_variant(base, v)
     if ov is None:
         return (v.name, "skipped", "source text of the variant not present")
     try:
@@ -78,7 +156,7 @@ def _run_variant(args):
             what = "; ".join([f"{f.rule}@{f.function}" for f in new] + res.incomplete)
             return (v.name, "FALSE-ALARM", what)
         return (v.name, "silent-ok", "")
-    hit = [f for f in new if f.rule == v.expect or f.rule.startswith(v.expect)]
+    hit = [f for f in new if v.expect == "*" or f.rule == v.expect or f.rule.startswith(v.expect)]
     if hit:
         return (v.name, "fired-ok", f"{hit[0].rule}@{hit[0].function}: {hit[0].construct[:80]}")
     other = "; ".join(f"{f.rule}@{f.function}" for f in new) or ("incomplete: " + "; ".join(res.incomplete) if res.incomplete else "nothing fired")
@@ -87,7 +165,7 @@ def _run_variant(args):
 
 def selftest(prop: str, prog: Program, base: Result, seed: int) -> Dict[str, object]:
     mod = load_module(prop)
-    variants: List[Variant] = list(getattr(mod, "VARIANTS", []))
+    variants: List[Variant] = list(getattr(mod, "VARIANTS", [])) + corpus_variants(prop)
     base_keys = {f.key for f in base.findings}
     jobs = [(prop, v, base_keys, str(prog.repo)) for v in variants]
     out = []
